@@ -10,6 +10,7 @@ import (
 	"verif/props/c11"
 	"verif/props/c13"
 	"verif/props/c15"
+	"verif/props/c16"
 	"verif/props/c18"
 	"verif/props/c19"
 )
@@ -24,6 +25,7 @@ func init() {
 	props["C11"] = prop{c11.Run, c11.Replay}
 	props["C13"] = prop{c13.Run, c13.Replay}
 	props["C15"] = prop{c15.Run, c15.Replay}
+	props["C16"] = prop{c16.Run, c16.Replay}
 	props["C18"] = prop{c18.Run, c18.Replay}
 	props["C19"] = prop{c19.Run, c19.Replay}
 }
